@@ -48,6 +48,8 @@ func checkC06(c *Ctx) {
 	if c.Tier == "thorough" {
 		cfgs = append(cfgs, "darwin", "freebsd")
 	}
+	c.Rule("C06-R15", "every way round a loop of inputLoop that contains the Tty read passes the test of the stop channel (a reader that returns empty-handed must not spin past it: Suspend and Fini would wait for ever)")
+	c.Expect("C06-R15", 1)
 	for _, cfg := range cfgs {
 		p := c.P(cfg)
 		if p == nil || p.Tcell == nil {
@@ -70,6 +72,7 @@ func checkC06(c *Ctx) {
 		checkEventQueuesNeverClosed(c, p, "C06-R12")
 		checkTtyRestart(c, p, "C06-R13")
 		checkFiniNotLockedOut(c, p, "C06-R14", "simscreen")
+		checkReadLoopPassesStop(c, p, "C06-R15")
 		for _, f := range []string{"tty", "ti"} {
 			ws := []string{}
 			for _, fn := range p.modFns {
